@@ -1,13 +1,16 @@
 #!/bin/sh
-# Verify every finished seeder output under /tmp/seed-Cxx not yet stored; remove the seeder worktree once both are stored.
+# Verify every finished seeder output under /tmp/seed-Cxx (ids Cxx-1/2) and /tmp/seed2-Cxx (ids Cxx-3/4)
+# that is not stored yet; remove the seeder worktree once both of its changes are stored or rejected twice.
 cd /verif
-for d in /tmp/seed-C*; do
+for d in /tmp/seed-C* /tmp/seed2-C*; do
   [ -d "$d/seed_out" ] || continue
-  p=$(basename $d | sed 's/seed-//')
+  p=$(basename $d | sed 's/seed2\?-//')
+  off=0; case $d in /tmp/seed2-*) off=2;; esac
   [ -f "$d/seed_out/1/patch.diff" ] && [ -f "$d/seed_out/2/patch.diff" ] || continue
   for i in 1 2; do
-    [ -d seeded/$p-$i ] || checks/seeded.py verify $d/seed_out/$i $p-$i $p 2>&1 | grep -E "UNEXPECTED|kept|NOT KEPT" | sed "s/^/$p-$i: /"
+    n=$((i+off))
+    [ -d seeded/$p-$n ] || checks/seeded.py verify $d/seed_out/$i $p-$n $p 2>&1 | grep -E "UNEXPECTED|kept|NOT KEPT" | sed "s/^/$p-$n: /"
   done
-  if [ -d seeded/$p-1 ] && [ -d seeded/$p-2 ]; then git -C /repo worktree remove --force $d; fi
+  if [ -d seeded/$p-$((1+off)) ] && [ -d seeded/$p-$((2+off)) ]; then git -C /repo worktree remove --force $d; fi
 done
 git -C /repo worktree prune
